@@ -493,6 +493,9 @@ func (g *Gen) draftEVM(kind string, h int64, sh *MState, P *DParams, price *big.
 			mc("multicall-destruct-then-fail", x, 7, y, 5, sha256sum([]byte(fmt.Sprint("benef", g.seq)))[:20], new(big.Int)),
 			mc("multicall-destruct-then-revert", x, 7, y, 4, g.pick(g.Fresh).Addr, new(big.Int)),
 			mc("multicall-pay-pay", x, 0, y, 0, nil, val()),
+			mc("multicall-destruct-then-pay-same", x, 7, x, 0, g.pick(g.Fresh).Addr, val()),
+			mc("multicall-destructself-then-pay-same", x, 17, x, 0, nil, val()),
+			mc("multicall-destruct-then-destruct-into-it", x, 7, y, 7, x, val()),
 			mc("multicall-oog-then-pay", x, 6, x, 0, nil, val()),
 		)
 		ch := cands[g.rng.Intn(len(cands))]
